@@ -8,6 +8,30 @@ import speccheck
 SPEC = {"eqb": "op_eqb_c06", "extra_imports": "",
         "oracle": "(fun p o => match o with Some d => prop_C06 p d | None => true end)"}
 
+def wide_cases(rng):
+    """Signatures with several names per field: (ctx, a, b, c string, id int, lim *int) and the like."""
+    import project as P
+    out = []
+    for k in range(3):
+        p = P.gen_project(rng, {"security": False, "params": True})
+        for c in p["controllers"]:
+            for m in c["methods"]:
+                run = rng.choice([3, 4])
+                ty = rng.choice(["string", "int", "bool"])
+                extra = [{"name": "w%d" % i, "ctx": False, "loc": rng.choice(["query", "header"]), "alias": None,
+                          "type": ty, "pointer": False, "validator": None, "slice": False} for i in range(run)]
+                tail = [{"name": "z0", "ctx": False, "loc": "query", "alias": None,
+                         "type": "int64" if ty != "int64" else "string", "pointer": rng.random() < 0.5,
+                         "validator": None, "slice": False}]
+                keep = [x for x in m["params"] if x["ctx"] or x["loc"] == "path"]
+                pos = rng.choice(["front", "back"])
+                m["params"] = (keep + extra + tail) if pos == "back" else \
+                    ([x for x in keep if x["ctx"]] + extra + tail + [x for x in keep if not x["ctx"]])
+                m["grouped"] = True
+        out.append(p)
+    return out
+
+
 if __name__ == "__main__":
     res = speccheck.run(
         "C06", SPEC, {"security": False, "params": True, "multipkg": True}, 30, 250,
@@ -18,5 +42,6 @@ if __name__ == "__main__":
              "or a request body",
         assumptions=["go/packages discovery and kin-openapi/libopenapi rendering are exercised, not modelled",
                      "the extra 3.0 'default' response without content and description is projected out (see C11)"],
-        nontrivial=lambda p, ops: bool(ops) and any(o["params"] or o["body"] for o in ops))
+        nontrivial=lambda p, ops: bool(ops) and any(o["params"] or o["body"] for o in ops),
+        extra_cases=wide_cases)
     sys.exit(res.finish())
